@@ -124,36 +124,39 @@ class Impl:
 
 
 def run_impl(case):
+    """Execute the case on the implementation.  Returns (micro_ops, rows, mops, impl):
+    one entry per *micro* op -- an API call, or one kernel pop (("POP",)), or a pure time advance
+    (("IDLE",)); rows[i] = (result, newly triggered tokens, state) after micro op i; mops[i] = the
+    model ops micro op i amounts to."""
     im = Impl(case["kind"], case["mode"], case["cap"], case.get("fdelay", 4), case.get("transit", 1))
-    rows, mops = [], []
+    micro, rows, mops = [], [], []
+
+    def pop():
+        m, trig, err = im.pop()
+        micro.append(("POP",))
+        rows.append((err or "ok", trig, im.state()))
+        mops.append(m)
+        return err
+
     for op in case["ops"]:
         op = tuple(op)
         k = op[0]
         if k == "STEP":
             if im.env.peek() == im.env.now:
-                m, trig, err = im.pop()
-                rows.append((err or "ok", trig, im.state()))
-                mops.append(m)
-            else:
-                rows.append(("ok", "", im.state()))
-                mops.append([])
+                pop()
         elif k == "ADV":
             target = im.env.now + op[1]
-            m, trigs, err = [], [], None
+            err = None
             while err is None and im.env.peek() <= target:
-                mm, tg, err = im.pop()
-                m += mm
-                if tg:
-                    trigs.append(tg)
-            if err is None:
-                im.env.run(until=target) if target > im.env.now else None
-            rows.append((err or "ok", ",".join(trigs), im.state()))
-            mops.append(m)
+                err = pop()
+            if err is None and target > im.env.now:
+                im.env.run(until=target)
         else:
             res, trig = im.api(op)
+            micro.append(op)
             rows.append((res, trig, im.state()))
             mops.append([op[:4] if k == "PUT" else op])
-    return rows, mops, im
+    return micro, rows, mops, im
 
 
 def model_text(case, mops):
